@@ -1125,7 +1125,7 @@ pub fn gen_dse() -> Vec<String> {
 
 /// GEO: counted loops that update a cell as `y = k*y + d` (a geometric closed form in the
 /// optimiser), with constant and input-dependent counts and start values, and a two-cell linear
-/// recurrence.  Deterministic, 120 programs.
+/// recurrence; triangular / cubic accumulations (x += d; y += x; z += y).  Deterministic, 159 programs.
 pub fn gen_geo() -> Vec<String> {
     let mut out = Vec::new();
     let body = |k: usize, d: usize| format!("[->[->{}<]>[-<+>]<{}<]", "+".repeat(k), "+".repeat(d));
@@ -1145,6 +1145,19 @@ pub fn gen_geo() -> Vec<String> {
             out.push(format!(",>+<{}>.", body(k, d)));
             out.push(format!(",>,<{}>.", body(k, d)));
         }
+    }
+    // triangular and higher closed forms: each iteration x += d; y += x (and z += y)
+    let acc = "[->+>+<<]>>[-<<+>>]<<"; // add the current cell to the next one, preserving it
+    for n in [2usize, 3, 5, 8, 13] {
+        for d in [1usize, 2, 3] {
+            out.push(format!("{}[->{}{}<]>>.", "+".repeat(n), "+".repeat(d), acc));
+            out.push(format!("{}>,<[->{}{}<]>.>.", "+".repeat(n), "+".repeat(d), acc));
+        }
+        out.push(format!("{}[->+{}>{}<<]>>>.", "+".repeat(n), acc, acc));
+    }
+    for d in [1usize, 2] {
+        out.push(format!(",[->{}{}<]>>.", "+".repeat(d), acc));
+        out.push(format!(",>,<[->{}{}>{}<<]>.>.>.", "+".repeat(d), acc, acc));
     }
     // x, y = y, x + y  (n steps)
     for n in [3usize, 7, 12, 20] {
